@@ -76,8 +76,7 @@ func runC06(c *Ctx) {
 		}
 	}
 	for _, site := range c.Sites("st:dataReader.limited=false") {
-		seen := s.SeenBefore(site)
-		R.Ob(c.siteKey(site, "limit lifted only after the callback"), c.P.InstrPos(site), seen[lData] || seen[lLMTPData], "limited=false is reachable before the backend consumed the message: the backend could read past the limit")
+		R.Ob(c.siteKey(site, "limit lifted only after the callback"), c.P.InstrPos(site), c.seenBeforeLifted(site, 0, lData, lLMTPData), "limited=false is reachable before the backend consumed the message: the backend could read past the limit")
 	}
 	for _, site := range c.Sites("st:dataReader.limited") {
 		if _, _, v := storedField(site); v != nil {
